@@ -83,7 +83,11 @@ class Report:
         proved = [o for o in self.obls if o["status"] == "discharged"]
         counted = [o for o in self.obls if o["status"] in ("discharged", "refuted", "undecided")]
         n_obl = len([o for o in counted if o["status"] != "undecided" or True])
-        if len(proved) < min_obligations and not real and not self.machinery:
+        if level != "proof":
+            if not self.bounded or sum(b.get("evaluations", 0) for b in self.bounded.values()) == 0:
+                self.machinery.append("vacuity guard: the bounded check ran no case")
+                out_lines.append(f"MACHINERY-FAILURE property={self.pid} {self.machinery[-1]}")
+        elif len(proved) < min_obligations and not real and not self.machinery:
             self.machinery.append(f"vacuity guard: {len(proved)} obligations discharged, at least {min_obligations} expected")
             out_lines.append(f"MACHINERY-FAILURE property={self.pid} {self.machinery[-1]}")
         by_backend, by_component, solver_time = {}, {}, 0.0
@@ -110,7 +114,7 @@ class Report:
             "discharged": len(proved),
             "checker_cmd": f"./check {self.pid} --tier {self.tier}",
             "trusted_base": self.trusted,
-            "samples": samples or [{"note": "no obligation discharged"}],
+            "samples": samples or [s_ for b in self.bounded.values() for s_ in b.get("samples", [])][:5] or [{"note": "none"}],
             "distinct_obligation_names": len(names),
             "by_backend": by_backend,
             "by_component": by_component,
